@@ -119,3 +119,61 @@ pub fn castling_never_only_move<S: Src, const SIDE: u8>(s: &mut S) {
     vassert!("legal castling implies the king step to the transit square is legal (real validator)", mv_of(step).validate(&b).is_ok());
     vcover!("castling legal", true);
 }
+
+/// `has_legal_moves` under the abstract legality predicate (S6), GEN(K) on FULL:
+/// the probe asks A only about non-castling pseudo-legal moves, answers false only if A rejected
+/// every one of them, and answers true exactly by stopping on a move A accepted.
+/// Natively (replay) the real filter runs and the answer is compared with the rules directly.
+pub fn has_legal_moves_wiring<S: Src, const SIDE: u8, const K: u32>(s: &mut S) {
+    crate::stubs::draw_hash_pool(s);
+    let b = match any_board(s, SIDE) {
+        Some(b) => b,
+        None => return,
+    };
+    vassume!(gen_bound(&b, K));
+    let p = pos_of(b.raw());
+    #[cfg(kani)]
+    {
+        let t = any_m(s);
+        let ans = s.bool();
+        crate::s6::reset(mv_of(t), ans);
+        let h = b.has_legal_moves();
+        let t_candidate = semilegal_ref(&p, t) && t.kind != K_OO && t.kind != K_OOO;
+        let (asked, last_true, first) = unsafe { (crate::s6::T_ASKED, crate::s6::LAST_TRUE, owlchess::verif::FIRST_LEGAL) };
+        vassert!("the filter is asked only about pseudo-legal non-castling moves", asked == 0 || t_candidate);
+        vassert!("the filter is asked about a move at most once", asked <= 1);
+        if !h {
+            vassert!("'no legal move' only if every pseudo-legal non-castling move was offered to the filter and rejected", !(t_candidate && ans) && (!t_candidate || asked == 1));
+            vassert!("'no legal move' only if the filter accepted nothing", last_true.is_none());
+        } else {
+            vassert!("'has a legal move' exactly by stopping on a move the filter accepted", first.is_some() && first == last_true);
+        }
+        vcover!("probe says no move although candidates exist", !h && t_candidate);
+        vcover!("probe stops on the target", h && first == Some(mv_of(t)));
+        vcover!("target is an en passant candidate", t_candidate && t.kind == K_EP);
+        vcover!("target is a promotion candidate", t_candidate && t.kind == K_PQ);
+    }
+    #[cfg(not(kani))]
+    {
+        // exhaustive native comparison on the concrete position of the counterexample
+        let h = b.has_legal_moves();
+        let mut any_legal = false;
+        let mut witness = M { kind: 0, cell: 0, src: 0, dst: 0 };
+        for kind in 1..10u8 {
+            for cell in 1..13u8 {
+                for src in 0..64u8 {
+                    for dst in 0..64u8 {
+                        let m = M { kind, cell, src, dst };
+                        if p.cells[src as usize] == cell && legal_ref(&p, m) {
+                            any_legal = true;
+                            witness = m;
+                        }
+                    }
+                }
+            }
+        }
+        vnote!("fen={} has_legal_moves={} rules say {} (e.g. {:?})", b.as_fen(), h, any_legal, mv_of(witness));
+        vassert!("has_legal_moves = (some legal move exists)", h == any_legal);
+        vassert!("has_legal_moves agrees with the legal generator", h == !owlchess::movegen::legal::gen_all(&b).is_empty());
+    }
+}
